@@ -41,6 +41,7 @@ type Ctx struct {
 	imports  map[string]*Report
 	decodeSet map[*ssa.Function]bool
 	txCache   map[string][]txInfo
+	recvCache map[string]map[string]bool
 }
 
 // runCached runs a property's rule set once per loaded configuration; shared
